@@ -145,7 +145,7 @@ def parser_inputs(chk):
             cases.append(("c17corpus:%s:%s" % (c["name"], n), d))
     for p in sorted(glob.glob("/repo/tests/Ninja/*/*.ninja") + glob.glob("/repo/tests/Ninja/*/*/*.ninja")):
         cases.append(("repo:" + os.path.relpath(p, "/repo/tests/Ninja"), open(p, "rb").read()))
-    for i in range(chk.n(120, 2500)):
+    for i in range(chk.n(300, 2500)):
         r = rng.random()
         kind = "oracle" if r < 0.45 else "late" if r < 0.6 else "weird" if r < 0.72 else "malformed"
         g = c17.Gen(rng, kind).generate()
@@ -155,9 +155,8 @@ def parser_inputs(chk):
     fixed = [(k, f) for (k, f) in stream if not k.startswith(("mutant:", "random:"))]
     var = [(k, f) for (k, f) in stream if k.startswith(("mutant:", "random:"))]
     if chk.tier == "quick":
-        # all corpus tails, every truncation of seed 2 and every third of the others, a sample of the mutants
-        fixed = [(k, f) for (k, f) in fixed if not k.startswith("truncate:") or k.startswith("truncate:2:") or int(k.split(":")[2]) % 3 == 0]
-        var = rng.sample(var, min(len(var), 2500))
+        # all corpus tails and truncations, a sample of the mutants
+        var = rng.sample(var, min(len(var), 9000))
     for k, f in fixed + var:
         for n, d in sorted(f.items()):
             cases.append(("c19:%s:%s" % (k, n) if n != "build.ninja" else "c19:" + k, d))
@@ -214,10 +213,11 @@ def parse_part(chk, only=None):
                 if lines is None:
                     continue
                 stats["bytes"] += len(d)
-                src = k.split(":")[0] + (":" + k.split(":")[1] if k.startswith("c19:") and not k.startswith("c19:tail") else "")
+                kf = k.split(":")
+                src = kf[0] + (":" + (kf[1] if kf[1] in ("truncate", "mutant", "random", "tail") else "corpus") if kf[0] == "c19" else "")
                 stats["by_source"][src] = stats["by_source"].get(src, 0) + 1
                 mod = model_ast(model, d)
-                errs = [l.split(" ")[1] for l in lines if l[0] in "Ee"]
+                errs = [l.split(" ")[1] for l in lines if l[:2] in ("E ", "e ")]
                 for c in errs:
                     codes[c] = codes.get(c, 0) + 1
                 stats["with_errors" if errs else "error_free"] += 1
@@ -248,3 +248,121 @@ def parse_part(chk, only=None):
     stats["parser_error_codes_seen"] = {c: codes[c] for c in sorted(codes, key=int)}
     chk.cov["parse"] = stats
     return stats
+
+
+# ------------------------------------------------------------------ (d): bytes -> model parse -> model load vs ninja_driver load
+
+def load_inputs(chk):
+    """[(key, {relative name: bytes}, main)]"""
+    import props.c17 as c17
+    import props.c19 as c19
+    rng = chk.rng
+    cases = []
+    for c in c17.CORPUS:
+        cases.append(("c17corpus:" + c["name"], c["files"], "main.ninja"))
+    for i in range(chk.n(150, 1500)):
+        r = rng.random()
+        kind = "oracle" if r < 0.45 else "late" if r < 0.6 else "weird" if r < 0.72 else "malformed"
+        cases.append(("c17gen:%s:%d" % (kind, i), c17.Gen(rng, kind).generate()["files"], "main.ninja"))
+    stream = c19.ninja_cases(chk)
+    fixed = [(k, f) for (k, f) in stream if not k.startswith(("mutant:", "random:", "truncate:"))]
+    trunc = [(k, f) for (k, f) in stream if k.startswith("truncate:")]
+    var = [(k, f) for (k, f) in stream if k.startswith(("mutant:", "random:"))]
+    if chk.tier == "quick":
+        trunc = [(k, f) for (k, f) in trunc if int(k.split(":")[2]) % 3 == 0]
+        var = rng.sample(var, min(len(var), 2000))
+    for k, f in fixed + trunc + var:
+        cases.append(("c19:" + k, f, "build.ninja"))
+    return cases
+
+
+def load_part(chk, only=None):
+    drv_path = vlib.build_drivers(["ninja_driver"])["ninja_driver"]
+    model_path = vlib.model_bin(AREA)
+    os.makedirs(SANDBOX, exist_ok=True)
+    cases = only if only is not None else load_inputs(chk)
+    drv = vlib.Interactive(drv_path)
+    model = vlib.Interactive(model_path)
+    stats = dict(trees=len(cases), identical=0, disagreements=0, commands=0, with_errors=0, crashes=0)
+    try:
+        for idx, (k, files, main) in enumerate(cases):
+            wd = os.path.join(SANDBOX, "l%d" % idx)
+            shutil.rmtree(wd, ignore_errors=True)
+            os.makedirs(wd)
+            for n, c in files.items():
+                p = os.path.join(wd, n)
+                os.makedirs(os.path.dirname(p), exist_ok=True)
+                with open(p, "wb") as f:
+                    f.write(c)
+            rp = dict(case=k, files={n: c.hex() for n, c in files.items()}, files_text={n: show(c)[:1500] for n, c in files.items()}, main=main)
+            try:
+                impl = drv.ask("load %s %s" % (hx(wd.encode()), hx(main.encode())))
+            except RuntimeError as e:
+                drv.close()
+                drv = vlib.Interactive(drv_path)
+                stats["crashes"] += 1
+                chk.violation("loader-crash", "the manifest loader crashed on a directory of byte strings (case %s): %s" % (k, str(e)[-300:]), rp,
+                              found_input=True, broken="ManifestLoader::load")
+                continue
+            mod = model.ask("loadbytes %s %s" % (wd, main))
+            irecs = impl.split(" ; ")
+            ncmd = sum(1 for r in irecs if r.startswith("C "))
+            errs = tuple(sorted(set(r.split(" ")[1] for r in irecs if r.startswith("E "))))
+            stats["commands"] += ncmd
+            stats["with_errors"] += 1 if errs else 0
+            chk.count(("load", min(ncmd, 6), errs) if (ncmd or errs) else None)
+            if impl == mod:
+                stats["identical"] += 1
+                shutil.rmtree(wd, ignore_errors=True)
+            else:
+                stats["disagreements"] += 1
+                mrecs = mod.split(" ; ")
+                a = [r for r in irecs if r not in mrecs][:5]
+                b = [r for r in mrecs if r not in irecs][:5]
+                chk.violation("parse-load-correspondence", "model (Parse.NinjaParse.parse_load) and ManifestLoader disagree on a directory of byte strings (case %s)" % k,
+                              dict(rp, sandbox=wd, only_implementation=a, only_model=b), found_input=False,
+                              broken="correspondence: Parse.NinjaParse.parse_load (parser + loader models) vs lib/Ninja/Parser.cpp + ManifestLoader.cpp")
+    finally:
+        drv.close(); model.close()
+    chk.cov["load"] = stats
+    return stats
+
+
+# ------------------------------------------------------------------ entry points
+
+RULE = ("byte strings through the extracted parser model (lexer model + Parse.NinjaParse.parse) and through the REAL ninja::Lexer + ninja::Parser with a recording "
+        "ParseActions (`ninja_driver ast`): every file of the C17 generator's manifest trees and corpus, the manifests of /repo/tests/Ninja, truncations of the C19 seed "
+        "manifests, the C19 stream (corpus tails, dictionary/byte mutants with CR/LF mixes, random bytes); the action lists (declarations, block bindings, parser errors "
+        "as codes, in order) must be identical. Oracles on the implementation's list computed from the bytes alone: token texts occur in the buffer; no statement line "
+        "without an action or an error. End to end: directory of byte strings -> model parse of every file -> loader model, versus the REAL ManifestLoader: identical "
+        "canonical dumps. non-trivial = at least one action; distinct by the sequence of action kinds / error codes (parse) and (commands, error kinds) (load)")
+
+
+def run(chk):
+    try:
+        chk.proof_gate()
+        parse_part(chk)
+        load_part(chk)
+    finally:
+        if not chk.violations:
+            shutil.rmtree(SANDBOX, ignore_errors=True)
+    chk.assumptions = ["ManifestLoader reads an included file when it reaches the include; the model parses every file of the map up front (parsing depends on the bytes only)",
+                       "the file map of the end-to-end part is keyed by make_absolute(wd, relative name): includes that spell an existing file differently are not generated",
+                       "Token line/column numbers are modelled but not compared (the recording driver prints texts only)"]
+    return chk.finish(level="proof", rule=RULE,
+                      trusted=["hand-written models coq/Parse/NinjaParse.v, NinjaLex.v, NinjaEval.v tied by differential execution", "harness/cpp/ninja_driver.cpp",
+                               "extraction (ExtrOcamlBasic) + ocaml/vmodel_ninjaparse.ml"])
+
+
+def replay(chk, rp):
+    print("replaying %s" % rp.get("finding_key"))
+    if rp.get("files"):
+        files = {n: bytes.fromhex(c) for n, c in rp["files"].items()}
+        load_part(chk, only=[(rp.get("case", "replay"), files, rp.get("main", "build.ninja"))])
+        parse_part(chk, only=[("replay:" + n, d) for n, d in sorted(files.items())])
+    elif "data" in rp:
+        parse_part(chk, only=[(rp.get("case", "replay"), bytes.fromhex(rp["data"]))])
+    else:
+        print(json.dumps(rp, indent=1)[:4000])
+        return run(chk)
+    return chk.finish(level="proof", rule="replay of one recorded input")
